@@ -7,7 +7,7 @@ use crate::prng::Prng;
 pub const META: Meta = Meta {
     id: "C01",
     level: "exploration",
-    rule: "Cases = (program, signal list, scripted device) drawn by the grammar-directed generator (profile `flow`: let/loop/repeat/while nests to depth 4, bounds that are constants, <=0, variables, outer counters or device outputs; shadowing lets; bits(); no random, no hazards), printed to text; the crate's whole row stream (line, input values, expected values, end of iteration) is compared as a sequence with the stream prescribed by the reference interpreter for the same device answers. The first 100 338 (quick) / 4 429 535 (thorough) case indices are NOT sampled: they enumerate completely the program space `let x=0; row; STMT; row; let x=x+1; row` with STMT ::= row | let x=x+1 | let x=7 | repeat(B) row | loop(c,B) BLOCK | loop(x,B) BLOCK (shadowing) | let w=K; while(w) BLOCK let w=w-1, nesting depth <= 2, blocks of <= 2 statements (<= 1 at depth 2 in quick), B in {-1,0,1,2}, K in {0,1,2}; for these vars() after every row is compared too. Distinct = by hash of (source text, signals, device script). Non-trivial = reference prescribes >= 2 rows, executes >= 1 loop/while, and at least one of {loop bound <= 0, nesting depth >= 2, shadowing let, let inside a loop, device-derived value in an expression, while with zero iterations}.",
+    rule: "Cases = (program, signal list, scripted device) drawn by the grammar-directed generator (profile `flow`: let/loop/repeat/while nests to depth 4, bounds that are constants, <=0, variables, outer counters or device outputs; shadowing lets; bits(); no random, no hazards), printed to text; the crate's whole row stream (line, input values, expected values, end of iteration) is compared as a sequence with the stream prescribed by the reference interpreter for the same device answers. The first 100 338 (quick) / 4 429 535 (thorough) case indices are NOT sampled: they enumerate completely the program space `let x=0; row; STMT; row; let x=x+1; row` with STMT ::= row | let x=x+1 | let x=7 | repeat(B) row | loop(c,B) BLOCK | loop(x,B) BLOCK (shadowing) | let w=K; while(w) BLOCK let w=w-1, nesting depth <= 2, blocks of <= 2 statements (<= 1 at depth 2 in quick), B in {-1,0,1,2}, K in {0,1,2}; for these vars() after every row is compared too. A quarter of the counting whiles inside loops have their first binding hoisted to the top of the program, 15% of all counting whiles are doubled (while(c) directly inside while(c)); expressions of the shape e OP e and cancelling pairs occur in 3-4% of the inner nodes. Distinct = by hash of (source text, signals, device script). Non-trivial = reference prescribes >= 2 rows, executes >= 1 loop/while, and at least one of {loop bound <= 0, nesting depth >= 2, shadowing let, let inside a loop, device-derived value in an expression, while with zero iterations}.",
     assumptions: &[
         "reference interpreter refint (written from the property text) is the trusted base",
         "scripted device answers are a pure function of (call index, signal, input history)",
